@@ -5,7 +5,7 @@ use crate::socks::RECV_KINDS;
 
 fn l2(ctx: &mut Ctx, faults: bool, big: bool) {
     let kind = RECV_KINDS[(ctx.idx % RECV_KINDS.len() as u64) as usize];
-    let out = recv::run(ctx, RecvCfg { kind, faults, cancel: false, max_senders: 4, max_msgs: if big { 6 } else { 14 }, big, rejoin: faults && !big });
+    let out = recv::run(ctx, RecvCfg { kind, faults, cancel: false, max_senders: 4, max_msgs: if big { 6 } else { 14 }, big, rejoin: faults && !big, long: !faults && !big && (ctx.idx / 6) % 16 == 15 });
     recv::check_delivery(ctx, &out);
     ctx.check_panics();
 }
